@@ -4,7 +4,7 @@ import numpy as np
 from ..runner import Acc, HarnessError
 from ..refmodel import Fmt, overflow_code
 from .. import alphabet as al
-from ..common import AGED, Fxp, codes, flags, fmt_of, reset_class_state, obs, build
+from ..common import AGED, ENVS, Fxp, codes, flags, fmt_of, reset_class_state, obs, build
 
 ID = 'C14'
 RULE = ('cases = (format, shifting mode, overflow mode, direction, shift count, code or code array); expand: value(x<<n) == value(x)*2^n and '
@@ -15,6 +15,7 @@ ASSUMPTIONS = ['for an overflowing << in trunc/keep mode either the saturated or
                'shift counts limited by n_word + n <= 62']
 
 MODES = ('expand', 'trunc', 'keep')
+C14_ENVS = tuple(e for e in ENVS if e != 'flagged')     # shift results are deep copies of x: its status record travels with them
 
 
 def judge(acc, f, mode, ovf, d, n, cs, part, by='raw', inplace=False):
@@ -183,6 +184,9 @@ def run_shard(sh):
                             judge(acc, f, mode, ovf, d, n, cs, 'S', 'value')
                             judge(acc, f, mode, ovf, d, n, cs, 'S', 'raw', True)
                             if ovf == 'saturate' and n in (0, 1, nw):
+                                for env in (C14_ENVS if nw <= 2 else (C14_ENVS[(n + nf + MODES.index(mode) + (d == '<<')) % len(C14_ENVS)],)):
+                                    judge(acc, f, mode, ovf, d, n, cs, 'S', 'env:' + env)
+                                    judge(acc, f, mode, ovf, d, n, cs[-1], 'S', 'env:' + env)
                                 for how in (AGED if nw <= 2 else (AGED[(n + nf + MODES.index(mode)) % len(AGED)],)):
                                     judge(acc, f, mode, ovf, d, n, cs, 'S', how)       # operand reached through a history
                                     judge(acc, f, mode, ovf, d, n, cs[0], 'S', how)
